@@ -74,9 +74,7 @@ class Run:
         for src, dst in files:
             shutil.copy(src, os.path.join(d, dst))
         cfg = cfg or (module + ".cfg")
-        cmd = ["java", "-Xss1g", "-XX:+UseParallelGC"]
-        if heap:
-            cmd.append("-Xmx" + heap)
+        cmd = ["java", "-Xss1g", "-XX:+UseParallelGC", "-Xmx" + (heap or "12g")]
         cmd += ["-cp", TLA_CP, "tlc2.TLC", "-workers", str(workers or 1), "-metadir", os.path.join(d, "meta"),
                 "-config", cfg] + list(extra) + [module + ".tla"]
         t0 = time.time()
@@ -124,61 +122,47 @@ class Run:
     # ---------------------------------------------------------------- trace validation
     def validate(self, module, trace_path, reset_events=("Doc", "Reset"), batches=None, timeout=1500, keep_reset=True, sticky=None):
         """Split an event log at reset events into batches, validate each batch with TLC (-workers 1)
-        in parallel, collect mismatch records.  Every batch must report DONE with its length."""
-        with open(trace_path) as f:
-            lines = [ln for ln in f.read().split("\n") if ln]
-        if not lines:
+        in parallel, collect mismatch records.  Every batch must report DONE with its length.
+        The log is streamed: only the lines of the batches being validated are in memory."""
+        # pass 1: offsets of the lines, which of them are reset / sticky events
+        offs, resets, stick, total = [], [], [], 0
+        with open(trace_path, "rb") as f:
+            pos = 0
+            for raw in f:
+                n = len(raw)
+                if raw.strip():
+                    head = raw[:400].decode("utf-8", "replace")
+                    m = re.search(r'"ev":"([A-Za-z]+)"', head) or re.search(r'"ev":"([A-Za-z]+)"', raw.decode("utf-8", "replace"))
+                    ev = m.group(1) if m else ""
+                    offs.append((pos, n))
+                    resets.append(ev in reset_events)
+                    stick.append(bool(sticky) and ev == sticky)
+                    total += n
+                pos += n
+        if not offs:
             raise Broken("empty trace " + trace_path)
+        nlines = len(offs)
+        # groups: maximal runs starting at a reset event (sticky mode: split anywhere, the last sticky event is repeated)
         if sticky:
-            # every event is self-contained given the latest `sticky` event (e.g. the descriptor): split anywhere
-            # and repeat that event at the head of each batch
-            nb = batches or min(NCPU, max(1, len(lines) // 400))
-            per = (len(lines) + nb - 1) // nb
-            groups_st, cur_st, last = [], [], None
-            for ln in lines:
-                is_st = ('"ev":"%s"' % sticky) in ln
-                if len(cur_st) >= per:
-                    groups_st.append(cur_st)
-                    cur_st = [last] if (last is not None and not is_st) else []
-                if is_st:
-                    last = ln
-                cur_st.append(ln)
-            if cur_st:
-                groups_st.append(cur_st)
-            lines_for_count = lines
-            lines = None
-        groups, cur = [], []
-        for ln in (lines or []):
-            ev = json.loads(ln).get("ev") if len(ln) < 200 else None
-            if ev is None:
-                m = re.search(r'"ev":"([A-Za-z]+)"', ln)
-                ev = m.group(1) if m else ""
-            if ev in reset_events and cur:
-                groups.append(cur)
-                cur = []
-            cur.append(ln)
-        if sticky:
-            groups = groups_st
-            lines = lines_for_count
-            batches = len(groups)
+            nb = batches or max(1, min(64, max(total // (80 << 20) + 1, min(NCPU, nlines // 400))))
+            per = (nlines + nb - 1) // nb
+            groups = [(i, min(i + per, nlines)) for i in range(0, nlines, per)]
         else:
-            groups.append(cur)
-        nb = batches or min(NCPU, max(1, len(lines) // 400))
-        # balance by byte size
-        groups_sorted = groups
-        total = sum(sum(len(x) for x in g) for g in groups)
+            starts = [0] + [i for i in range(1, nlines) if resets[i]]
+            groups = [(starts[k], starts[k + 1] if k + 1 < len(starts) else nlines) for k in range(len(starts))]
+        nb = batches or max(1, min(len(groups), max(total // (80 << 20) + 1, min(NCPU, nlines // 400))))
         target = total / nb
         bat, cur, sz = [], [], 0
-        for g in groups_sorted:
+        for g in groups:
             cur.append(g)
-            sz += sum(len(x) for x in g)
+            sz += sum(offs[i][1] for i in range(g[0], g[1]))
             if sz >= target and len(bat) < nb - 1:
                 bat.append(cur)
                 cur, sz = [], 0
         if cur:
             bat.append(cur)
         self.traces += len(groups)
-        self.events += len(lines)
+        self.events += nlines
 
         def denull(x):
             if x is None:
@@ -195,48 +179,67 @@ class Run:
                 return json.dumps(denull(json.loads(ln)), separators=(",", ":"))
             return ln
 
+        def read_lines(f, lo, hi):
+            out = []
+            for i in range(lo, hi):
+                f.seek(offs[i][0])
+                out.append(f.read(offs[i][1]).decode("utf-8").rstrip("\n"))
+            return out
+
+        seen_fp = set()
+
         def one(bi):
-            evs = [ln for g in bat[bi] for ln in g]
+            evs = []
+            with open(trace_path, "rb") as f:
+                first = bat[bi][0][0]
+                if sticky and not stick[first]:
+                    j = first
+                    while j >= 0 and not stick[j]:
+                        j -= 1
+                    if j >= 0:
+                        evs += read_lines(f, j, j + 1)
+                for lo, hi in bat[bi]:
+                    evs += read_lines(f, lo, hi)
             tf = os.path.join(self.scratch, "batch-%s-%d-%d.ndjson" % (module, len(os.listdir(self.scratch)), bi))
             with open(tf, "w") as f:
-                f.write("\n".join(clean(ln) for ln in evs) + "\n")
-            r = self.tlc(module, workers=1, files=[(tf, "trace.ndjson")], timeout=timeout, name="%s-b%d" % (module, bi))
-            return bi, evs, r
-
-        mism = []
-        with concurrent.futures.ThreadPoolExecutor(max_workers=NCPU) as ex:
-            for bi, evs, r in ex.map(one, range(len(bat))):
-                if r["error"]:
-                    raise Broken("TLC error validating %s batch %d:\n%s" % (module, bi, r["error"]))
-                done = [x for x in r["records"] if x.get("tag") == "DONE"]
-                if not done or done[-1]["n"] != len(evs):
-                    raise Broken("trace validation of %s batch %d did not consume the trace:\n%s" % (module, bi, r["out"][-2000:]))
-                seen = set()
-                for x in r["records"]:
-                    if x.get("tag") == "HARNESS":
-                        raise Broken("harness produced an event the spec cannot interpret: %s / %s" % (x, evs[x["i"] - 1][:300]))
-                    if x.get("tag") != "MM":
-                        continue
-                    key = json.dumps(x, sort_keys=True)
-                    if key in seen:
-                        continue
-                    seen.add(key)
-                    i = x["i"] - 1
-                    # context: the last reset event at or before i, and the event itself
+                for ln in evs:
+                    f.write(clean(ln) + "\n")
+            r = self.tlc(module, workers=1, files=[(tf, "trace.ndjson")], timeout=timeout, name="%s-b%d" % (module, bi), heap="4g")
+            os.remove(tf)
+            if r["error"]:
+                raise Broken("TLC error validating %s batch %d:\n%s" % (module, bi, r["error"]))
+            done = [x for x in r["records"] if x.get("tag") == "DONE"]
+            if not done or done[-1]["n"] != len(evs):
+                raise Broken("trace validation of %s batch %d did not consume the trace:\n%s" % (module, bi, r["out"][-2000:]))
+            mism, seen = [], set()
+            for x in r["records"]:
+                if x.get("tag") == "HARNESS":
+                    raise Broken("harness produced an event the spec cannot interpret: %s / %s" % (x, evs[x["i"] - 1][:300]))
+                if x.get("tag") != "MM":
+                    continue
+                key = json.dumps(x, sort_keys=True)
+                if key in seen:
+                    continue
+                seen.add(key)
+                i = x["i"] - 1
+                if x.get("ev") == "Crash" and not x.get("detail"):
+                    # name the fault: the first library frame of the worker's dying stack trace
+                    try:
+                        msg = json.loads(evs[i]).get("msg", "")
+                        m = re.search(r"github\.com/cloudwego/dynamicgo/([\w/.\-]+?)\.((?:\(\*?\w+\)\.)?\w+)", msg)
+                        kind = "fault" if "unexpected fault address" in msg else ("killed" if "WORKER KILLED" in msg else ("race" if "DATA RACE" in msg else "fatal"))
+                        x["detail"] = kind + ":" + (m.group(1) + "." + m.group(2) if m else "")
+                    except Exception:
+                        pass
+                fp = fingerprint(self.prop, x)
+                if fp not in seen_fp:
+                    # keep the heavy context only for the first occurrence of a fingerprint
+                    seen_fp.add(fp)
                     j = i
-                    while j > 0 and not any(('"ev":"%s"' % re_) in evs[j] for re_ in reset_events):
+                    while j > 0 and not any(('"ev":"%s"' % re_) in evs[j][:400] for re_ in (reset_events if not sticky else (sticky,))):
                         j -= 1
                     x["_ctx"] = evs[j] if j != i else None
                     x["_event"] = evs[i]
-                    if x.get("ev") == "Crash" and not x.get("detail"):
-                        # name the fault: the first library frame of the worker's dying stack trace
-                        try:
-                            msg = json.loads(evs[i]).get("msg", "")
-                            m = re.search(r"github\.com/cloudwego/dynamicgo/([\w/.\-]+?)\.((?:\(\*?\w+\)\.)?\w+)", msg)
-                            kind = "fault" if "unexpected fault address" in msg else ("killed" if "WORKER KILLED" in msg else ("race" if "DATA RACE" in msg else "fatal"))
-                            x["detail"] = kind + ":" + (m.group(1) + "." + m.group(2) if m else "")
-                        except Exception:
-                            pass
                     for src in (evs[i], evs[j]):
                         if '"case":' in src:
                             try:
@@ -244,7 +247,15 @@ class Run:
                                 break
                             except Exception:
                                 pass
-                    mism.append(x)
+                mism.append(x)
+            r["records"] = None
+            r["out"] = None
+            return mism
+
+        mism = []
+        with concurrent.futures.ThreadPoolExecutor(max_workers=min(NCPU, 12)) as ex:
+            for m in ex.map(one, range(len(bat))):
+                mism.extend(m)
         self.mismatches.extend(mism)
         return mism
 
@@ -273,7 +284,7 @@ def finish(run, level, rule, assumptions, exhaustive=False, extra=None):
         by_fp.setdefault(fingerprint(prop, mm), []).append(mm)
     violations, knowns = 0, 0
     for fp, mms in sorted(by_fp.items()):
-        mm = mms[0]
+        mm = next((x for x in mms if "_event" in x), mms[0])
         k = next((k for k in known if k["fingerprint"] == fp), None)
         if k:
             knowns += 1
